@@ -37,17 +37,9 @@ Proof.
   - intros j Hj. destruct j as [|[|[|j]]]; try lia; vm_compute; reflexivity.
 Qed.
 
-(* finding #1: max_iter = 0 — the model (like the code) writes 'F' and dies with UnboundLocalError *)
+(* max_iter = 0 after the repair of finding #1: 'F', iterations 0, NonConvergenceError under failures='raise' *)
 Example ex_maxiter0 :
   f_solve_t ex_scripts ex_desc (ex_opts 0 0) 1 ex_state
-  = (mkState [[0%float; 0%float; 0%float]] [Unsolved; Failed; Unsolved] [-1; -1; -1] [EvBefore 1],
-     Raise UnboundLocalError).
+  = (mkState [[0%float; 0%float; 0%float]] [Unsolved; Failed; Unsolved] [-1; 0; -1] [EvBefore 1],
+     Raise NonConvergenceError).
 Proof. vm_compute. reflexivity. Qed.
-
-Lemma maxiter0_refuted :
-  exists sc d o t s, max_iter o = 0 /\ min_iter o <= max_iter o /\
-    snd (f_solve_t sc d o t s) <> Ret false /\ snd (f_solve_t sc d o t s) <> Raise NonConvergenceError.
-Proof.
-  exists ex_scripts, ex_desc, (ex_opts 0 0), 1, ex_state.
-  rewrite ex_maxiter0. cbn. repeat split; try lia; discriminate.
-Qed.
